@@ -75,6 +75,8 @@ fn main() {
     "C25" => dispatch!(props::c25::C25),
     "C26" => dispatch!(props::c26::C26),
     "C28" => dispatch!(props::c28::C28),
+    #[cfg(feature = "vectors")]
+    "C29" => dispatch!(props::c29::C29),
     "C30" => dispatch!(props::c30::C30),
     other => {
       eprintln!("no check for property {other}");
